@@ -43,6 +43,10 @@ pub fn generate(profile: &str, seed: u64, n: usize, size: usize) -> Vec<History>
         "setx" => out = crate::exhaust::gen_mapsetx(Coll::SetTree, size.max(1) as i32),
         "keyx" => out = crate::exhaust::gen_keyx(size.max(1) as i32, 3),
         "hold" => out = crate::exhaust::gen_hold(size.max(1) as i32),
+        // every coloured shape of up to `size` nodes, every single insertion / removal from it;
+        // sharded: n = number of shards (seed = this shard)
+        "mapshape" => out = crate::exhaust::gen_shapex(Coll::MapTree, size.max(1), n.max(1), seed as usize),
+        "setshape" => out = crate::exhaust::gen_shapex(Coll::SetTree, size.max(1), n.max(1), seed as usize),
         // finite sweeps, sharded: n = number of shards, size = this shard (deep layout: size >= n)
         "seg32" => out = shard(crate::exhaust::gen_seg32(), n, size),
         "layout" => out = shard(crate::exhaust::gen_layout(size >= n.max(1)), n, size),
@@ -148,6 +152,27 @@ pub fn generate(profile: &str, seed: u64, n: usize, size: usize) -> Vec<History>
                 m.coll = Coll::MapTree;
                 m.ops.retain(|o| !matches!(o, Op::M(MOp::After(_)) | Op::M(MOp::Before(_)) | Op::M(MOp::WalkF(_)) | Op::M(MOp::WalkB(_))));
                 out.push(m);
+                out.push(h);
+            }
+        }
+        // random mid-size states with every one-step continuation (size 2: every ordered pair of
+        // removals from the smaller states); every fourth history also on the list variant
+        "fanmap" | "fanset" => {
+            let coll = if profile == "fanmap" { Coll::MapTree } else { Coll::SetTree };
+            let lcoll = if profile == "fanmap" { Coll::MapList } else { Coll::SetList };
+            for _ in 0..n {
+                let from = out.len();
+                crate::big::gen_fan_mapset(&mut rng, coll, size == 2, &mut out);
+                let lists: Vec<History> = out[from..].iter().step_by(4).map(|h| as_list(h, lcoll)).collect();
+                out.extend(lists);
+            }
+        }
+        "fankey" => {
+            for _ in 0..n {
+                let h = crate::big::gen_fan_key(&mut rng);
+                let mut l = h.clone();
+                l.coll = Coll::KeyList;
+                out.push(l);
                 out.push(h);
             }
         }
